@@ -165,12 +165,29 @@ class ExternalVariableCollector(NodeVisitor):
         self.vardoc = {}
         self.provenance = {v: "closure" for v in closure_vars}
         self.funcnames = set()
+        self.root = None
         self.visit(tree)
-        self.used -= self.funcnames
+        self.used -= {tree.name} - self.assigned
 
     def visit_FunctionDef(self, node):
         self.funcnames.add(node.name)
-        self.generic_visit(node)
+        if self.root is None:
+            self.root = node
+            self.generic_visit(node)
+        else:
+            # A nested function: the def statement binds its name in the
+            # enclosing function; its parameters and body are its own scope,
+            # only what the definition itself evaluates belongs here
+            self.provenance[node.name] = "body"
+            self.assigned.add(node.name)
+            for sub in [
+                *node.decorator_list,
+                *node.args.defaults,
+                *[d for d in node.args.kw_defaults if d is not None],
+            ]:
+                self.visit(sub)
+
+    visit_AsyncFunctionDef = visit_FunctionDef
 
     def visit_ClassDef(self, node):
         # The class statement binds its name; its body is a scope of its own
@@ -565,7 +582,11 @@ class PteraTransformer(NodeTransformer):
 
     def visit_FunctionDef(self, node, root=False):
         if not root:
-            return node
+            # The def statement binds the name of the nested function
+            name_node = ast.copy_location(
+                ast.Name(id=node.name, ctx=ast.Store()), node
+            )
+            return [node, *self.generate_interactions(name_node)]
 
         new_body = []
 
